@@ -353,3 +353,31 @@ def _(v):
     except ValueError:
         okh = False
     v.prove("binary_fractions_accepted", okh)
+
+
+@harness("C05", "refusal_names_a_violated_key", functions=[RS + ":ReactionSystem.check_balance", RS + ":ReactionSystem.__init__"], kind="data")
+def _(v):
+    """'construction fails with a ValueError naming a violated key': the key printed in the message is one the named reaction really changes, by the
+    amount printed; charge-only imbalance names key 0; formula-defined species (ions incl. the electron) and explicit compositions"""
+    import re
+    from chempy.chemistry import Reaction, Substance
+    from chempy.reactionsystem import ReactionSystem
+    F = Substance.from_formula
+    cases = [
+        ("element_only", [Reaction({"H2O2": 1}, {"H2O": 1})], [F("H2O2"), F("H2O")], {8: -1}),
+        ("charge_only", [Reaction({"Fe+3": 1}, {"Fe+2": 1})], [F("Fe+3"), F("Fe+2")], {0: -1}),
+        ("charge_only_second_reaction", [Reaction({"Fe+3": 1, "e-": 1}, {"Fe+2": 1}), Reaction({"Fe+2": 1}, {"Fe+3": 1})], [F("Fe+3"), F("Fe+2"), F("e-")], {0: 1}),
+        ("both", [Reaction({"NH4+": 1}, {"NH3": 1})], [F("NH4+"), F("NH3")], {0: -1, 1: -1}),
+        ("explicit_compositions", [Reaction({"A": 2}, {"B": 1})], [Substance("A", composition={1: 1, 99: 2}), Substance("B", composition={1: 2, 99: 5})], {99: 1}),
+    ]
+    for label, rxns, subs, violated in cases:
+        try:
+            ReactionSystem(rxns, subs)
+            msg = None
+        except ValueError as e:
+            msg = str(e)
+        m = re.search(r"Composition violation \((-?\d+): (-?[0-9.e+-]+)\)", msg or "")
+        ok = m is not None and int(m.group(1)) in violated and abs(float(m.group(2)) - violated[int(m.group(1))]) < 1e-12
+        v.prove(label, ok, detail=repr(msg))
+    balanced = ReactionSystem([Reaction({"Fe+3": 1, "e-": 1}, {"Fe+2": 1}), Reaction({"H2O2": 2}, {"H2O": 2, "O2": 1})], [F(k) for k in ("Fe+3", "e-", "Fe+2", "H2O2", "H2O", "O2")])
+    v.prove("balanced_formula_defined_system_is_accepted", balanced.nr == 2)
